@@ -94,8 +94,7 @@ Section EndToEnd.
       apply In_nth_error in Hin as [k Hk]. rewrite mapi_from_nth in Hk. cbn [Nat.add] in Hk.
       destruct (nth_error (Builder.s_nodes st) k) as [nd|] eqn:En; [|discriminate]. injection Hk as <-.
       cbn [bnode SerialHugr.n_op]. pose proof (nth_error_In _ _ En) as Hnd. destruct (HQ nd Hnd) as [M T].
-      unfold cop_ok_b. rewrite (conc_tag_ok E0 tyc nm _ (conj M T)), andb_true_r.
-      apply conc_op_ok; [exact M|]. intros v Ev. exact (HC nd v Hnd Ev). }
+      unfold cop_ok_b. apply conc_op_ok; [exact M|]. intros v Ev. exact (HC nd v Hnd Ev). }
     split; [exact G|]. split; [exact A|].
     destruct (roundtrip_concrete E0 E0 e0 e0 e0 e0_type e0_ok e0_rt unit tt unit_is_nil eq_refl unit_nil_unique (cview st) G
                 (ops_ok_OpsIn _ _ _ _ A)) as [s [h' [Hs1 [Hf [Hs2 [HI _]]]]]].
